@@ -83,7 +83,7 @@ func (C06) Gen(rt *rapid.T, tier string) any {
 		case "truncated":
 			f.Src.Ops = []Op{{Kind: "trunc", Off: pick(rt, len(b)+1, label+".trunc")}}
 		case "corrupted":
-			f.Src.Ops = genOps(rt, len(b), label+".op")
+			f.Src.Ops = genOps(rt, b, label+".op")
 		}
 	}
 	// the extractors that touch the host file system come first, over-weighted
